@@ -81,6 +81,15 @@ CHECKS = {
    text='Hundreds of generator calls (bit-count sums, efficient/naive weighted sums over all short weight vectors, two-number and shifted adders over all small length/shift combinations, add_sum_pow2_m1 up to 70 inputs; bases as enum and in several string spellings; both endiannesses; fresh inputs or arbitrary repeated gates of random host circuits) are recorded; TLC evaluates each resulting circuit on all 2^n rows (n <= 10) or on sampled rows and judges the weighted-sum identity with pairwise distinct levels, a + b*2^shift, returned labels are gates, pre-existing gates keep their function, host inputs/outputs untouched, basis, and the weakest documented gate-count bound. ArithLemmas.tla checks the bit-sequence reference arithmetic against integers.',
    note='Trusted: TLC, Arith.tla / JudgeArith (executable reference semantics - the "transcribed function" use of the technique), recorder (endianness contract). Exhaustive inside small widths, sampled beyond.',
    tech='TLA+ reference arithmetic evaluated by TLC on circuits recorded from the generators'),
+
+ 'C08': dict(cat='exploration', ref='5 (C08)',
+   text='generate_mul / add_mul* in all six modes and generate_square / add_square* in both modes, both endiannesses, operands as primary inputs or arbitrary gates of host circuits: all width pairs up to (5,5) (thorough (6,6)) and squares up to 8 (10) bits on ALL operand values; widths reaching the Karatsuba recursion / padding (18, 20, 21, 24x15, 40) and the squarer split (47..54) on sampled operand values. TLC evaluates the recorded netlists (thousands of gates, along a witness order it checks step by step), multiplies the operand bit sequences with Arith.BMul and compares with the returned bits; also result width, fresh gates only, pre-existing gates unchanged.',
+   note='Trusted: TLC, Arith.tla (bit-sequence arithmetic checked against integers by ArithLemmas.tla), recorder. Exhaustive in small widths, sampled rows beyond.',
+   tech='TLA+ reference arithmetic evaluated by TLC on circuits recorded from the generators'),
+ 'C09': dict(cat='exploration', ref='5 (C09)',
+   text='Subtraction, subtract-with-compare, div-mod (incl. b = 0), integer square root, the equality gadget against every constant 0..2^(n+1), plus-one through generate_plus_one and add_plus_one (add_outputs F/T, result labels given or not), if-then-else and the pairwise gadgets are called for all small widths, both endiannesses, on fresh inputs and on arbitrary (repeated) gates of random host circuits; TLC evaluates the recorded circuit on ALL operand values and judges the integer identities, that outputs are extended iff asked, that returned labels exist and that pre-existing gates keep their function.',
+   note='Trusted: TLC, Arith.tla / JudgeArith, recorder (endianness contract).',
+   tech='TLA+ reference arithmetic evaluated by TLC on circuits recorded from the generators'),
 }
 PENDING = 'check not built yet in this round (work in progress; see DESIGN.md section 5)'
 m = {
